@@ -30,7 +30,7 @@ RULE = ('cases = batches of data lines / sources drawn from the quantifier of C2
         'all flag vectors for small n, invalid flags, values over 60 decades incl. negatives and -999, names <= 40 chars, '
         'mixed whitespace); a case is non-trivial when it contains at least one accepted line with n >= 1 or one rejected '
         'line; distinct = distinct canonical hash of the generated batch')
-REQUIRED_BRANCHES = ['eof', 'reject_columns_mod1', 'reject_columns_mod2', 'reject_flag', 'reject_number', 'accept_n0',
+REQUIRED_BRANCHES = ['eof', 'reject_columns_mod1', 'reject_columns_mod2', 'reject_flag', 'reject_flag_noninteger', 'reject_number', 'accept_n0',
                      'accept', 'roundtrip', 'name_longer_than_30', 'placeholder_999', 'negative_value', 'mixed_whitespace',
                      'dict_roundtrip', 'pickle_roundtrip', 'n12', 'fmt_text', 'parse_format_parse', 'valid_float_array',
                      'spelling_inf_nan', 'spelling_underscore', 'spelling_flag']
@@ -187,7 +187,8 @@ def gen_cases(seed, tier):
                 t = good_tokens(rng, n)
                 t[pos] = tok
                 lines.append(layout(rng, t))
-    for tok in ['01', '+1', '001', '+0', '-0', '0_1', '00_9', '+4', '1_0', '0_5', '1.0', '1e0', '1.', '+', '1_', '_1', '-1', '+9', '09']:
+    for tok in ['01', '+1', '001', '+0', '-0', '0_1', '00_9', '+4', '1_0', '0_5', '1.0', '1e0', '1.', '+', '1_', '_1', '-1', '+9', '09',
+                '2.7', '9.5', '4.999', '3.2e-5', '0.5', '-0.3', '9.99e0', '1e-30', '4.', 'nan', 'inf', spell(rng, gen_value(rng))]:
         for n in (1, 3):
             for pos in (0, n - 1):
                 t = good_tokens(rng, n)
@@ -261,7 +262,9 @@ def spec(toks):
     try:
         flags = [int(t) for t in toks[3:3 + n]]
     except ValueError:
-        return ('error', 'number', False)
+        # a flag column that is no integer at all ('2.7', '3.2e-5', a flux slid into a flag slot, 'x') is certainly
+        # not one of {0,1,2,3,4,9}: the property demands rejection, accepting it (e.g. truncated to 2) is a failure
+        return ('error', 'flag_noninteger', True)
     if any(f not in VALID for f in flags):
         return ('error', 'flag', True)
     try:
@@ -376,10 +379,12 @@ def run_lines(case, with_model=True):
         elif sp[0] == 'error':
             nontrivial = True
             branches.add({'columns_mod1': 'reject_columns_mod1', 'columns_mod2': 'reject_columns_mod2',
-                          'flag': 'reject_flag', 'number': 'reject_number'}[sp[1]])
+                          'flag': 'reject_flag', 'flag_noninteger': 'reject_flag_noninteger',
+                          'number': 'reject_number'}[sp[1]])
             if got[0] != 'error':
                 return (False, True if sp[2] else None,
-                        'line %r (%d columns, %s) must be rejected with an error; from_ascii gave %r' % (line, len(toks), sp[1], got),
+                        'line %r (%d columns, %s; flag columns %r) must be rejected with an error; from_ascii gave %r'
+                        % (line, len(toks), sp[1], toks[3:3 + max(0, (len(toks) - 3) // 3)], got),
                         branches, nontrivial)
         else:
             f = sp[1]
